@@ -17,7 +17,7 @@ import torch
 import torch.nn as nn
 
 DEFAULTS = {"ins": [], "out": 0, "k": 1, "d": 1, "s": 1, "bias": True, "bn": False, "dw": False,
-            "excl": False, "causal": False, "reuse": 0, "valid": False, "pm": "zeros"}
+            "excl": False, "causal": False, "reuse": 0, "valid": False, "pm": "zeros", "sym": False}
 
 
 def norm_node(n: Dict[str, Any]) -> Dict[str, Any]:
@@ -93,6 +93,13 @@ class GrammarNet(nn.Module):
                 if dim == 1:
                     if n["valid"]:
                         conv = nn.Conv1d(cin, cout, k, stride=s, padding=0, dilation=d, groups=groups, bias=n["bias"])
+                    elif n["sym"]:
+                        # explicit NON-causal padding (README: un-padded conv + nn.ConstantPad1d): span split evenly
+                        if ((k - 1) * d) % 2 or s != 1:
+                            raise ValueError("symmetric explicit padding needs an even span and stride 1")
+                        self.layers[lname(idx) + "_pad"] = nn.ConstantPad1d(((k - 1) * d // 2, (k - 1) * d // 2), 0.0)
+                        names.append(lname(idx) + "_pad")
+                        conv = nn.Conv1d(cin, cout, k, stride=1, padding=0, dilation=d, groups=groups, bias=n["bias"])
                     elif n["causal"]:
                         self.layers[lname(idx) + "_pad"] = nn.ConstantPad1d(((k - 1) * d, 0), 0.0)
                         names.append(lname(idx) + "_pad")
